@@ -157,6 +157,23 @@ func verifyAll(sigs []sigEntry, hash []byte) (int, string) {
 			return i, fmt.Sprintf("Ed25519 verification failed under key %x over len64|SHA-512(file)|len64|block-before(%d bytes, %d older signatures)|len64|attributes(%d bytes)",
 				pk, len(before), len(sigs)-i-1, len(refAttrs(s.attrs)))
 		}
+		// the library's own exported verifier (the check SignAndAddNewSignature relies on, also a
+		// door of its own): yes for this triple, never yes for a neighbour of it
+		if ok, err := integrityblock.VerifyEd25519Signature(ed25519.PublicKey(pk), s.sig, data); !ok || err != nil {
+			return i, fmt.Sprintf("integrityblock.VerifyEd25519Signature refuses a signature that verifies (ok=%v err=%v)", ok, err)
+		}
+		flip := func(b []byte, at int) []byte { c := append([]byte{}, b...); c[at%len(c)] ^= 1 << uint(at%8); return c }
+		for _, at := range []int{0, 31, 32, 63, len(data) - 1, len(data) / 2} {
+			if ok, err := integrityblock.VerifyEd25519Signature(ed25519.PublicKey(pk), flip(s.sig, at), data); ok && err == nil {
+				return i, fmt.Sprintf("integrityblock.VerifyEd25519Signature accepts the signature with bit %d of octet %d flipped", at%8, at%len(s.sig))
+			}
+			if ok, err := integrityblock.VerifyEd25519Signature(ed25519.PublicKey(pk), s.sig, flip(data, at)); ok && err == nil {
+				return i, fmt.Sprintf("integrityblock.VerifyEd25519Signature accepts the signature over data with octet %d changed", at%len(data))
+			}
+			if ok, err := integrityblock.VerifyEd25519Signature(ed25519.PublicKey(flip(pk, at)), s.sig, data); ok && err == nil {
+				return i, fmt.Sprintf("integrityblock.VerifyEd25519Signature accepts the signature under a key with octet %d changed", at%len(pk))
+			}
+		}
 	}
 	return -1, ""
 }
